@@ -88,6 +88,19 @@ func wideSpec() J {
 		paths[fmt.Sprintf("/meet/%d", i)] = J{"get": J{"operationId": fmt.Sprintf("meet%d", i), "parameters": params, "responses": J{"200": J{"description": "ok"}}}}
 	}
 	defs := d["definitions"].(J)
+	// alias chains: definitions that are nothing but a $ref, referred to from properties
+	for i, target := range []J{
+		{"type": "object", "additionalProperties": J{"type": "string", "enum": []any{"aa", "bb"}}},
+		{"type": "integer", "format": "int32", "multipleOf": json.Number("3")},
+		{"type": "array", "items": J{"type": "string", "minLength": json.Number("2")}},
+		{"type": "object", "required": []any{"id"}, "properties": J{"id": J{"type": "string", "pattern": "^[a-z]+$"}}},
+	} {
+		n := fmt.Sprintf("Chain%d", i)
+		defs[n+"Target"] = target
+		defs[n+"Alias"] = J{"$ref": "#/definitions/" + n + "Target"}
+		defs[n+"Alias2"] = J{"$ref": "#/definitions/" + n + "Alias"}
+		defs[n+"Holder"] = J{"type": "object", "required": []any{"p"}, "properties": J{"p": J{"$ref": "#/definitions/" + n + "Alias"}, "o": J{"$ref": "#/definitions/" + n + "Alias"}, "c": J{"$ref": "#/definitions/" + n + "Alias2"}}}
+	}
 	for i := 0; i < 12; i++ {
 		props := J{}
 		for p := 0; p < 9; p++ {
